@@ -5,6 +5,7 @@ import kernels, tvlib
 from speclib import PEN1D, pen_instances_1d, block_instances, prox_objective_block
 
 GEN_SOURCES = ["skglm/utils/prox_funcs.py", "skglm/penalties/separable.py", "skglm/penalties/block_separable.py"]
+EXTRA_TARGETS = ["Gen/ProxFuncs.vo", "Gen/PenSeparable.vo", "Gen/PenBlock.vo"]
 TRUSTED_BASE = [
     "Coq 8.16.1 kernel (coqc); vm_compute used only in correspondence files, no native_compute",
     "axioms: Reals (sig_forall_dec, sig_not_dec), functional_extensionality_dep, Classical_Prop.classic (via Reals/Lra)",
